@@ -2,7 +2,7 @@
 # Runs the repository's pinned baseline suite (guard OFF: the machinery uses no source hooks) and
 # checks that every test of BASELINE.json's stable_pass list still passes.
 out=$(mktemp /dev/shm/spil-baseline.XXXXXX.xml)
-cd /repo && env -u SPIL_VERIF /venv/bin/python -m pytest -ra -q -p no:cacheprovider --timeout=900 \
+cd "${REPO_DIR:-/repo}" && env -u SPIL_VERIF /venv/bin/python -m pytest -ra -q -p no:cacheprovider --timeout=900 \
    --continue-on-collection-errors --junitxml="$out" >/dev/null 2>&1
 /venv/bin/python - "$out" <<'PY'
 import json, sys, xml.etree.ElementTree as ET
